@@ -298,6 +298,26 @@ def c18(run):
                            "each validated at its own width and compared event by event at the API level")
 
 
+def c19(run):
+    quick = run.tier == Q
+    run.assumptions += COMMON_ASSUMPTIONS + ["real rayon schedules are sampled (pool sizes 1..64), the split-tree space is covered by the model and the split driver hook"]
+    for cfg in ("MC_split_w2.cfg", "MC_split_w4.cfg", "MC_split_w8s.cfg"):
+        run.model(cfg, "MC_split.tla", workers=8, timeout=600)
+    n = 1 if quick else 4
+    jobs = [
+        {"name": "split", "backend": "sse2", "args": ["split", "--seed", str(run.seed), str(40 * n), "14"], "module": "HbSplitTrace.tla", "cfg": "HbSplitTrace.cfg"},
+        {"name": "split", "backend": "generic", "args": ["split", "--seed", str(run.seed), str(40 * n), "14"], "module": "HbSplitTrace.tla", "cfg": "HbSplitTrace.cfg"},
+        job(run, "par", ["map:kv16:collide:40:%d:par" % (600 * n), "map:k4v4:mixed:100:%d:par" % (300 * n)]),
+        job(run, "parset", ["set:k8t:collide:30:%d:parset" % (500 * n), "table:te24:zero:40:%d:partable" % (400 * n)]),
+    ]
+    if not quick:
+        jobs.append(job(run, "parg", ["map:kv16:collide:40:2000:par", "table:te24:fewpos:60:1500:partable"], backend="generic"))
+        jobs.append(job(run, "par2", ["map:kv200:seq:200:1500:par", "set:k1:mixed:200:1500:parset"]))
+    run.traces_parallel(jobs)
+    return run.finish(rule="model: every interleaving of split / yield over all occupancy patterns of small tables; code: RawIterRange::split applied along random "
+                           "decision trees on real tables (leaf index sets validated), real rayon runs with collecting and short-circuiting consumers on pools of 1..64 threads")
+
+
 def c13(run):
     return generic_check(run, [("MC_map_w2churn.cfg", "MC_map.tla", {"timeout": 300})], [],
         [("churn", ["map:kv16:collide:12:3000:churn", "map:kv16:zero:10:2000:churn"]),
@@ -340,6 +360,7 @@ CHECKS = {
     "C13": c13,
     "C17": c17,
     "C18": c18,
+    "C19": c19,
     "C14": c14,
     "C15": c15,
 }
